@@ -177,8 +177,8 @@ Proof.
   eexists. eexists. split; vm_compute; reflexivity.
 Qed.
 
-(** sweep: every sequence of 1-3 direct requests over five names x six
-    first-body edits x four environment schedules *)
+(** sweep: every sequence of 1-2 direct requests over four names, eight of
+    three, x seven first-body edits x four environment schedules *)
 Definition names5 : list (string * scall) :=
   [("t0", leaf_call 0); ("a.t1", leaf_call 1); ("b.t2", leaf_call 2); ("a", leaf_call 1)].
 
@@ -198,7 +198,8 @@ Definition env_schedules : list (list (list (string * string))) :=
 Definition req_seqs : list (list (string * scall)) :=
   map (fun a => [a]) names5 ++
   flat_map (fun a => map (fun b => [a; b]) names5) names5 ++
-  flat_map (fun a => flat_map (fun b => map (fun c => [a; b; c]) names5) names5) names5.
+  map (fun a => [("b.t2", leaf_call 2); a; ("t0", leaf_call 0)]) names5 ++
+  map (fun a => [("a", leaf_call 1); ("t0", leaf_call 0); a]) names5.
 
 Definition sweep : bool :=
   forallb (fun reqs =>
@@ -211,5 +212,5 @@ Definition sweep : bool :=
 Lemma view_bounded : sweep = true.
 Proof. vm_compute. reflexivity. Qed.
 
-Lemma sweep_size : List.length req_seqs = 84 /\ List.length edits = 7 /\ List.length env_schedules = 4.
+Lemma sweep_size : List.length req_seqs = 28 /\ List.length edits = 7 /\ List.length env_schedules = 4.
 Proof. vm_compute. auto. Qed.
